@@ -29,6 +29,18 @@ def classify(f, case):
     return None
 
 
+def _h5_view(path):
+    """(result records, dataset names) of an HDF5 result file"""
+    if path is None or not os.path.exists(path):
+        return None
+    import h5py
+    import cell_type_mapper.utils.output_utils as OU
+    names = []
+    with h5py.File(path, 'r') as f:
+        f.visit(names.append)
+    return OU.hdf5_to_blob(path).get('results'), sorted(names)
+
+
 def h_scratch(ctx, case):
     inp = SC.inputs(case)
     work = ST.new_work()
@@ -39,6 +51,7 @@ def h_scratch(ctx, case):
     before = inp.digests()
     kw = dict(enc=enc, bootstrap_iteration=5)
     base = ST.run(ST.make_config(inp, base_work, **kw))
+    base['h5_view'] = _h5_view(base['h5'])
     ST.drop_work(base_work)
     planted = []
     if ctx.flag('plant_stale_files'):
@@ -71,7 +84,22 @@ def h_scratch(ctx, case):
                 sentinels.append((p, 'belongs to another run'))
                 planted += [name, os.path.join(name, 'other_run.txt')]
     fail = ctx.choice('failure', 4)     # 0 none, 1 worker, 2 env, 3 query
+    earlier = ctx.flag('an_earlier_run_wrote_to_the_same_output_paths')
+    if earlier:
+        # a successful run with other settings (two runners-up, other
+        # seed) into the very same output paths; this run asks for none
+        kw['n_runners_up'] = 0
+        first = ST.run(ST.make_config(inp, work, enc=enc, n_runners_up=2,
+                                      bootstrap_iteration=3, rng_seed=77))
+        ctx.check(first['raised'] is None, 'the earlier run succeeds')
+        base_work2 = ST.new_work('base2')
+        base = ST.run(ST.make_config(inp, base_work2, **kw))
+        base['h5_view'] = _h5_view(base['h5'])
+        ST.drop_work(base_work2)
     cfg = ST.make_config(inp, work, **kw)
+    h5p = cfg['hdf5_result_path']
+    h5_before = os.stat(h5p).st_mtime_ns if h5p and os.path.exists(h5p) \
+        else None
     if ctx.flag('query_and_statistics_files_share_a_file_name'):
         # the same file name in two directories (copies of the inputs)
         import shutil
@@ -121,6 +149,23 @@ def h_scratch(ctx, case):
                   == base['json'].get('results'),
                   'result does not depend on files left behind by earlier '
                   'runs')
+        mine = _h5_view(res['h5'])
+        if mine is not None and base.get('h5_view') is not None:
+            ctx.check(mine[0] == base['h5_view'][0],
+                      'the HDF5 output equals that of a run into a fresh '
+                      'location (nothing of an earlier output survives)')
+            ctx.check(mine[1] == base['h5_view'][1],
+                      'the HDF5 output holds exactly the datasets of a run '
+                      'into a fresh location')
+    if failed and res.get('h5') is not None and \
+            os.stat(res['h5']).st_mtime_ns != h5_before:
+        # (a run that dies before it reaches its output stage leaves an
+        # earlier run's file as it was; one that writes must not keep the
+        # earlier records)
+        import cell_type_mapper.utils.output_utils as OU
+        ctx.check('results' not in OU.hdf5_to_blob(res['h5']),
+                  'after a failed run the HDF5 output holds no result '
+                  'records (also not those of an earlier run)')
     ST.drop_work(work)
     return 'failed' if failed else 'ok'
 
